@@ -270,7 +270,10 @@ func (mc *vfC04Machine) othersIDs(self string) (ids []vfC04ID) {
 	return ids
 }
 
-// drawFreeID draws an identifier that no client other than self owns.
+// drawFreeID draws an identifier that no client other than self owns.  The
+// kind is drawn; when every value of that kind is taken the next kind that has
+// a free value is used (the vocabulary is small on purpose and long histories
+// can exhaust a kind).
 func (mc *vfC04Machine) drawFreeID(t *rapid.T, label, self string) vfC04ID {
 	taken := map[string]bool{}
 	nets := map[netip.Prefix]bool{}
@@ -280,28 +283,48 @@ func (mc *vfC04Machine) drawFreeID(t *rapid.T, label, self string) vfC04ID {
 			nets[id.Pref.Masked()] = true
 		}
 	}
+	var freeIPs []netip.Addr
+	for _, a := range vfC04Pool {
+		if !taken["ip:"+a.String()] {
+			freeIPs = append(freeIPs, a)
+		}
+	}
+	var freeNets []netip.Prefix
+	for _, p := range vfC04Prefixes {
+		if !nets[p] {
+			freeNets = append(freeNets, p)
+		}
+	}
+	var freeMACs [][]byte
+	for _, m := range vfC04MACs {
+		if !taken["mac:"+hex.EncodeToString(m)] {
+			freeMACs = append(freeMACs, m)
+		}
+	}
+	var freeCIDs []string
+	for _, c := range vfC04CIDs {
+		if !taken["clientid:"+c] {
+			freeCIDs = append(freeCIDs, c)
+		}
+	}
+	avail := [4]int{vfC04IP: len(freeIPs), vfC04CIDR: len(freeNets), vfC04MAC: len(freeMACs), vfC04CID: len(freeCIDs)}
+
 	form := rapid.IntRange(0, 4).Draw(t, label+"_form")
 	kind := rapid.SampledFrom([]vfC04Kind{
 		vfC04IP, vfC04IP, vfC04IP, vfC04CIDR, vfC04CIDR, vfC04CIDR, vfC04CIDR, vfC04MAC, vfC04MAC, vfC04CID, vfC04CID,
 	}).Draw(t, label+"_kind")
+	for i := 0; i < 4 && avail[kind] == 0; i++ {
+		kind = (kind + 1) % 4
+	}
+	if avail[kind] == 0 {
+		t.Skip("every identifier of the vocabulary is taken")
+	}
+
 	switch kind {
 	case vfC04IP:
-		var free []netip.Addr
-		for _, a := range vfC04Pool {
-			if !taken["ip:"+a.String()] {
-				free = append(free, a)
-			}
-		}
-
-		return vfC04IDOfAddr(rapid.SampledFrom(free).Draw(t, label+"_ip"), form)
+		return vfC04IDOfAddr(rapid.SampledFrom(freeIPs).Draw(t, label+"_ip"), form)
 	case vfC04CIDR:
-		var free []netip.Prefix
-		for _, p := range vfC04Prefixes {
-			if !nets[p] {
-				free = append(free, p)
-			}
-		}
-		p := rapid.SampledFrom(free).Draw(t, label+"_net")
+		p := rapid.SampledFrom(freeNets).Draw(t, label+"_net")
 		if rapid.IntRange(0, 11).Draw(t, label+"_hostbits") == 0 {
 			// spelled with host bits set: still the same network
 			for _, a := range vfC04Pool {
@@ -316,41 +339,10 @@ func (mc *vfC04Machine) drawFreeID(t *rapid.T, label, self string) vfC04ID {
 
 		return vfC04IDOfPrefix(p, form)
 	case vfC04MAC:
-		var free [][]byte
-		for _, m := range vfC04MACs {
-			if !taken["mac:"+hex.EncodeToString(m)] {
-				free = append(free, m)
-			}
-		}
-		if len(free) == 0 {
-			return mc.drawFreeIDOfIP(t, label, taken, form)
-		}
-
-		return vfC04IDOfMAC(rapid.SampledFrom(free).Draw(t, label+"_mac"), form)
+		return vfC04IDOfMAC(rapid.SampledFrom(freeMACs).Draw(t, label+"_mac"), form)
 	default:
-		var free []string
-		for _, c := range vfC04CIDs {
-			if !taken["clientid:"+c] {
-				free = append(free, c)
-			}
-		}
-		if len(free) == 0 {
-			return mc.drawFreeIDOfIP(t, label, taken, form)
-		}
-
-		return vfC04IDOfCID(rapid.SampledFrom(free).Draw(t, label+"_cid"), form)
+		return vfC04IDOfCID(rapid.SampledFrom(freeCIDs).Draw(t, label+"_cid"), form)
 	}
-}
-
-func (mc *vfC04Machine) drawFreeIDOfIP(t *rapid.T, label string, taken map[string]bool, form int) vfC04ID {
-	var free []netip.Addr
-	for _, a := range vfC04Pool {
-		if !taken["ip:"+a.String()] {
-			free = append(free, a)
-		}
-	}
-
-	return vfC04IDOfAddr(rapid.SampledFrom(free).Draw(t, label+"_ip"), form)
 }
 
 // drawTakenID draws an identifier that another client owns (nil if none).
